@@ -35,6 +35,7 @@ func runC01(w *World) {
 		g := defaultGenCfg(1)
 		g.keys = g.keys[:nkeys]
 		g.freeIDs = []string{"a", "b", "c", "d"}[:nids]
+		g.wBad = 6
 		switch style {
 		case 1: // expiry heavy
 			g.wExpire = 10
